@@ -10,5 +10,5 @@ r=json.load(open('/verif/out/w.json'))
 print('FATAL:',r.get('fatal','')[:3000]); print(r['blocks'], r['steps'], 'wall',r['wall_s'])
 for p,s in sorted(r['stats'].items()):
     print(p,'evals',s['evaluations'],'distinct',s['distinct'],dict(sorted(s['events'].items())) if p!='_tx' else '')
-for v in r['violations']: print('VIOL',v['property'],v['signature'],json.dumps(v['details'])[:600],'step',v['step'])
+for v in (r['violations'] or []): print('VIOL',v['property'],v['signature'],json.dumps(v['details'])[:600],'step',v['step'])
 P
